@@ -65,9 +65,16 @@ def main():
                 if rnd.random() < 0.5:
                     before = snap(chdir)
                     bad = dict(dtype=np.int32, S=S, F=F, n=n, d=d, cplx=False, nsub=1, cont=False)
-                    which = rnd.choice(["dtype", "S", "F", "n", "d", "cplx", "nsub", "cont"])
-                    bad[which] = {"dtype": np.int16, "S": S * 2, "F": F * 2 if (S * 1000) % (F * 2) == 0 else F, "n": n + 1, "d": d + 1, "cplx": True, "nsub": 2, "cont": True}[which]
-                    if bad[which] == {"dtype": np.int32, "S": S, "F": F, "n": n, "d": d, "cplx": False, "nsub": 1, "cont": False}[which]:
+                    which = rnd.choice(["dtype", "byte order", "class", "S", "F", "n", "d", "cplx", "nsub", "cont"])
+                    if which in ("byte order", "class"):
+                        # same size, different byte order / type class
+                        bad["dtype"] = np.dtype(">i4") if which == "byte order" else np.float32
+                        which_key = "dtype"
+                    else:
+                        which_key = which
+                    if which_key == which:
+                        bad[which] = {"dtype": np.int16, "S": S * 2, "F": F * 2 if (S * 1000) % (F * 2) == 0 else F, "n": n + 1, "d": d + 1, "cplx": True, "nsub": 2, "cont": True}[which]
+                    if bad[which_key] == {"dtype": np.int32, "S": S, "F": F, "n": n, "d": d, "cplx": False, "nsub": 1, "cont": False}[which_key]:
                         continue
                     try:
                         w2 = digital_rf.DigitalRFWriter(chdir, bad["dtype"], bad["S"], bad["F"], start + 10 ** 6, bad["n"], bad["d"], uuid_str="x", is_complex=bad["cplx"],
